@@ -93,20 +93,24 @@ def reflow(c, r, text):
 def source_scan(c):
     """the only hidden input of the binary is the HashMap hasher seed; harmless iff the maps are never iterated"""
     bad = []
-    for f, maps in [(core.REPO + '/src/program.rs', ['regs', 'imports']), (core.REPO + '/src/libapi.rs', ['named'])]:
+    ALLOWED = ('insert', 'get', 'get_mut', 'contains_key', 'remove', 'len', 'is_empty', 'shrink_to_fit', 'clone', 'entry', 'with_capacity', 'reserve')
+    files = [os.path.join(dp, f) for d in (core.REPO + '/src', core.REPO + '/pkt/src', core.REPO + '/ezpkt/src') for dp, _, fs in os.walk(d) for f in fs if f.endswith('.rs')]
+    for f in files:
         txt = open(f).read()
-        for m in maps:
-            for mm in re.finditer(r'\b%s\s*\.\s*(\w+)' % m, txt):
-                if mm.group(1) not in ('insert', 'get', 'contains_key', 'remove', 'len', 'is_empty', 'shrink_to_fit', 'clone'):
-                    bad.append('%s: %s.%s' % (f, m, mm.group(1)))
-        for mm in re.finditer(r'for\s+.*\s+in\s+(?:&\s*(?:mut\s+)?)?(?:self\.)?(regs|imports|named)\b', txt):
-            bad.append('%s: iteration over %s' % (f, mm.group(1)))
+        # every binding of hash-map type in this file: fields, parameters (by value or reference), locals
+        maps = set(re.findall(r'\b(\w+)\s*:\s*&?\s*(?:mut\s+)?(?:std::collections::)?HashMap\s*<', txt)) | set(re.findall(r'let\s+(?:mut\s+)?(\w+)(?:\s*:[^=;]*)?=\s*(?:std::collections::)?HashMap::', txt))
+        for m in sorted(maps):
+            for mm in re.finditer(r'\b%s\s*\.\s*(\w+)' % re.escape(m), txt):
+                if mm.group(1) not in ALLOWED:
+                    bad.append('%s: %s.%s' % (os.path.relpath(f, core.REPO), m, mm.group(1)))
+            for mm in re.finditer(r'for\s+[^\n]*\s+in\s+(?:&\s*(?:mut\s+)?)?(?:self\.)?%s\b' % re.escape(m), txt):
+                bad.append('%s: iteration over %s' % (os.path.relpath(f, core.REPO), m))
     all_src = ''.join(open(os.path.join(dp, f)).read() for dp, _, fs in os.walk(core.REPO + '/src') for f in fs if f.endswith('.rs'))
     all_src += ''.join(open(os.path.join(dp, f)).read() for d in (core.REPO + '/pkt/src', core.REPO + '/ezpkt/src') for dp, _, fs in os.walk(d) for f in fs if f.endswith('.rs'))
     uses = re.findall(r'\b(SystemTime|Instant::now|std::env::|env::var|process::id|thread_rng|rand::|getpid|current_dir)\b', all_src)
     nmaps = len(re.findall(r'HashMap\s*<', all_src))
     c.extra['source_scan'] = dict(hashmaps=nmaps, ambient_api_uses=sorted(set(uses)), bad_map_uses=bad)
-    if bad or uses or nmaps != 4:
+    if bad or uses:
         c.tie_broken('tie', 'source scan: hash-map iteration or ambient API use found (%s %s, %d HashMap types)' % (bad, sorted(set(uses)), nmaps))
 
 
